@@ -59,7 +59,7 @@ func genC19(t *rapid.T) *c19Case {
 	if c.Opts.FastDetect {
 		c.LeaveAt = rapid.IntRange(2, n-1).Draw(t, "leaveAt")
 	}
-	kinds := []string{"put", "put", "put", "get", "get", "del", "expire", "incr", "getput", "lock", "unlock", "scan", "destroy"}
+	kinds := []string{"put", "put", "put", "get", "get", "del", "expire", "incr", "getput", "lock", "unlock", "scan", "destroy", "evict"}
 	for i := 0; i < n; i++ {
 		op := c19Op{Op: rapid.SampledFrom(kinds).Draw(t, "op")}
 		if c.LeaveAt >= 0 && i >= c.LeaveAt {
@@ -114,7 +114,8 @@ func runC19(c *c19Case) (v *vcommon.Violation, nontrivial, inconclusive bool) {
 	defer cancel()
 	// a per-case suffix keeps cases independent while the concatenations still collide:
 	// ("ab"+sfx, "c") never equals ("a"+sfx, "bc"), so the suffix goes in FRONT of the name.
-	sfx := freshName("z")
+	// (the prefix starts with letters that also occur in the fragment prefix "dmap.": names of any shape are legal)
+	sfx := freshName([]string{"z", "m", "a.", "dm"}[len(c.Ops)%4])
 	names := make([]string, len(c.Names))
 	for i, n := range c.Names {
 		names[i] = sfx + n
@@ -269,6 +270,28 @@ func runC19(c *c19Case) (v *vcommon.Violation, nontrivial, inconclusive bool) {
 				return bad("unlock", "Unlock with a token that is no longer stored returned %q", r.Err), nontrivial, false
 			}
 			delete(tokens[op.D], key)
+		case "evict":
+			// background eviction: the key is stored with a 1 ms ttl, the owner's eviction scan runs over its
+			// fragment; the key disappears from every copy of THIS DMap, and (checked below) no other DMap changes
+			if r := pc.put(ctx, key, []byte("soon-gone"), putOpt{Exp: "PX", Ms: 1}); r.Err != "" {
+				return nil, nontrivial, true
+			}
+			time.Sleep(4 * time.Millisecond)
+			cl.ownerOf(name, key).db.dmap.VerifEvict(name, key)
+			delete(m, key)
+			delete(tokens[op.D], key)
+			for _, mem := range cl.live() {
+				for _, kind := range []partitions.Kind{partitions.PRIMARY, partitions.BACKUP} {
+					if mem.db.dmap.VerifCheck(name, key, kind) {
+						// expired, so not observable - but the eviction scan has just removed the owner's copy and
+						// is to remove the other copies of this DMap's key with it
+						if !cl.ownerOf(name, key).db.dmap.VerifCheck(name, key, partitions.PRIMARY) {
+							return bad("evict-leftover", "the eviction scan removed the expired key from its owner, but member %s still stores it in its %s fragment of this DMap", mem.name, kind), nontrivial, false
+						}
+					}
+				}
+			}
+			nontrivial = true
 		case "scan":
 			dm, err := pc.dm(key)
 			if err != nil {
